@@ -437,6 +437,12 @@ def run_task(task):
                 out.setdefault("witness_skipped_inexact", 0)
                 out["witness_skipped_inexact"] += 1
                 return
+            # a model with absurd magnitudes (the solver's own choice when the hinted query timed out, e.g. 1e-173) would
+            # only test float underflow / overflow, which the reals model excludes: no replay for such a witness
+            if any(v != 0 and not (2.0 ** -30 <= abs(float(v)) <= 2.0 ** 30) for k, v in values.items() if not k.startswith("lg:")):
+                out.setdefault("witness_skipped_extreme", 0)
+                out["witness_skipped_extreme"] += 1
+                return
             failed, cobs, outside, err = replay(values, eng.uf_table(model))
             eng.stats.witness_replays += 1
             cobs_j = eng.eval_obs(model, cobs) if cobs is not None else None
@@ -613,7 +619,7 @@ def main(harness, tier, seed, jobs=None):
 
     agg = {"stats": {}, "violations": [], "errors": [], "samples": [], "sigs": set(), "nontrivial": set(),
            "reached": {}, "per_case": [], "canary": {cn["name"]: "survived" for cn in canaries},
-           "tasks": 0, "witness_skipped_inexact": 0}
+           "tasks": 0, "witness_skipped_inexact": 0, "witness_skipped_extreme": 0}
     ctxmp = mp.get_context("fork")
     hard_limit = opts["task_budget_s"] + opts.get("grace_s", 120)
 
@@ -634,6 +640,7 @@ def main(harness, tier, seed, jobs=None):
         agg["violations"].extend(r["violations"])
         agg["errors"].extend(r["errors"])
         agg["witness_skipped_inexact"] += r.get("witness_skipped_inexact", 0)
+        agg["witness_skipped_extreme"] += r.get("witness_skipped_extreme", 0)
         if len(agg["samples"]) < 6:
             agg["samples"].extend(r["samples"])
         for s_, triv in r["signatures"]:
@@ -758,6 +765,7 @@ def main(harness, tier, seed, jobs=None):
         "canaries": agg["canary"],
         "canary_paths": int(st.get("canary_paths", 0)),
         "witness_skipped_inexact": agg["witness_skipped_inexact"],
+        "witness_skipped_extreme": agg["witness_skipped_extreme"],
         "stubs_and_facades": getattr(H, "STUBS", []),
         "known_findings": known_lines,
         "problems": problems[:20],
